@@ -21,6 +21,16 @@ CLAIMED = {
         note="Trusted: Lean kernel; py2lean translation of is_bit_set; CPython ipaddress (IPv6 text<->packed; IPv4 cross-checked by a Lean recogniser) and datetime subtraction (cross-checked by the Lean calendar spec on every sampled instant); hand models of set_bit/unset_bit/AddressType/TimeType tied by correspondence.",
         technique="Lean 4 proof (Nat.testBit extensionality, omega) + differential correspondence",
         design="4 C20"),
+    "C01": dict(
+        text="Lean theorems: the AVP serialiser as coded (length recomputed, truthiness tests, padding property) equals the RFC 6733 reference encoder for every AVP; declarative layout of the dump of every well-formed AVP (size multiple of 4, code/flags/24-bit length = header+data without padding, Vendor-ID field iff V flag, data, zero padding); Grouped AVPs to any nesting depth (mutual induction on content trees); after any sequence of appends the Message Length equals 20 + padded sizes = size of the dump, and the message dump equals the reference message encoding for all header field values. Tie: dictionary table regenerated from the source; differential correspondence of dump() of objects built through the public API (all dictionary classes, kinds, residues, nesting, flag overrides, four ways of building a message) against model and reference encoder in the native driver.",
+        note="Trusted: Lean kernel; hand model of dump/append tied by correspondence; Gen/Dictionary translator; CPython bytes/struct/utf-8; typed command classes are exercised under C09.",
+        technique="Lean 4 proof (structural/mutual induction, list lemmas) + differential correspondence against a Lean reference encoder",
+        design="4 C01"),
+    "C02": dict(
+        text="Lean theorems over the decoder model (well-founded recursion, Python slice semantics, dictionary dispatch, class re-construction): for every stream of well-formed messages decoding yields exactly one object per message in order with header fields as on the wire and each AVP's code, Vendor-ID, data preserved, known pairs as their class, unknown ones generic, members of known Grouped AVPs recursively (mutual induction over content trees); re-serialisation equals header ++ encoding of the flag-normalised content; under the guard 'known AVPs carry default flags' it is byte-identical (full statement). Outside the guard the decoder resets flags: known finding C02-known-avp-reflagged with a proven witness. Tie: wire images from the Lean reference encoder decoded by DiameterMessage.load and compared object by object and byte by byte with model and specification.",
+        note="Trusted: Lean kernel; hand model of DiameterAVP.load / DiameterMessage.load / typed re-construction tied by correspondence; Gen/Dictionary translator; DiameterURI data not modelled; known finding listed in known_findings.json (5 stable tests pin the re-flagging).",
+        technique="Lean 4 proof (well-founded + mutual structural induction: decode(encode)=observe) + differential correspondence",
+        design="4 C02"),
 }
 
 NOT_YET = {
